@@ -56,8 +56,10 @@ CHECKS = {
          "TLC trace validation of the documented cost function", "numeric defaults are model constants"),
  "C12": ("model_checking", "5/C12",
          "TLC judges salt-size laws over nrbytes 0..256, flips every single bit of the supplied bytes and requires every bit the specification "
-         "says is consumed to change the result, checks that auto-entropy is drawn through the OS interface (interposed) and that two real draws differ.",
-         "TLC trace validation of bit-flip grids against Gensalt.tla", "the significance of a bit is defined by the exact model Gensalt.tla"),
+         "says is consumed to change the result, checks that auto-entropy is drawn through the OS interface (interposed) and that two real draws differ. "
+         "The fallback chain of get_random_bytes (build without arc4random_buf) is model-checked (Random.tla) and every history TLC generates for it "
+         "is replayed into the real function; a successful salt must encode whole-request bytes delivered by one OS source.",
+         "TLC trace validation of bit-flip grids against Gensalt.tla; TLC-generated histories of Random.tla replayed into get_random_bytes", "the significance of a bit is defined by the exact model Gensalt.tla"),
  "C13": ("model_checking", "5/C13",
          "Complete grid of output_size -2..256 (plus large sizes) x prefixes x count classes x nrbytes classes: TLC judges fit, token shape, guard "
          "bytes, errno kind, monotone success, leading-part relation to the 192-byte result, sufficiency of 192 bytes, and absence of aborts.",
